@@ -446,7 +446,7 @@ func c06Not(c *Ctx, T *ssa.Function, parms map[int64]OpArm) {
 		for _, av := range assertedValues(h, v, "bool") {
 			ps = append(ps, pinValue(av, constant.MakeBool(bv)))
 		}
-		r := c.foldWith(h, 1, ps...)
+		r := c.foldWith(h, 2, ps...)
 		got, ok := boxedBoolResult(r, 0)
 		c.R.Check(rule, fmt.Sprintf("bool:%v", bv), pos, ok && got == !bv, fmt.Sprintf("!%v must be %v", bv, !bv))
 	}
@@ -455,7 +455,7 @@ func c06Not(c *Ctx, T *ssa.Function, parms map[int64]OpArm) {
 		got, ok := boxedBoolResult(r, 0)
 		c.R.Check(rule, fmt.Sprintf("number:truthy=%v", tv), pos, ok && got == !tv, "`!` of a number must be the negation of its truthiness")
 	}
-	r := c.foldWith(h, 1, pinTypeCase(v, "nil"))
+	r := c.foldWith(h, 2, pinTypeCase(v, "nil"))
 	got, ok := boxedBoolResult(r, 0)
 	c.R.Check(rule, "null", pos, ok && got, "`!null` must be true")
 	// `!!` returns the truthiness itself
